@@ -529,8 +529,9 @@ def vec_text(v):
     if v["op"] == "g":
         call = {"gen": "xcm_attr_get", "gen0": "xcm_attr_get(type=NULL)", "fgen": "xcm_attr_getf", "bool": "xcm_attr_get_bool",
                 "int64": "xcm_attr_get_int64", "double": "xcm_attr_get_double", "str": "xcm_attr_get_str", "bin": "xcm_attr_get_bin",
-                "fstr": "xcm_attr_getf_str", "fbin": "xcm_attr_getf_bin"}[v["acc"]]
-        cap = "" if v["acc"] in ("bool", "int64", "double") else ", capacity %s" % v["cc"]
+                "fstr": "xcm_attr_getf_str", "fbin": "xcm_attr_getf_bin", "fbool": "xcm_attr_getf_bool",
+                "fint64": "xcm_attr_getf_int64", "fdouble": "xcm_attr_getf_double"}[v["acc"]]
+        cap = "" if v["acc"] in ("bool", "int64", "double", "fbool", "fint64", "fdouble") else ", capacity %s" % v["cc"]
         return "%s(%s%s) on %s" % (call, name, cap, sit)
     how = "attribute map of the creating call" if v["sit"][2] == "fresh" else "xcm_attr_set"
     return "%s(%s, type %s, length %s, value %s) on %s" % (how, name, TYPE_NAMES.get(v["ty"], v["ty"]), v["lc"], v["vc"], sit)
